@@ -226,6 +226,112 @@ theorem environ_roundtrip (k v hv : List Char) (hk : ValidKey k) (hka : asciiTex
     simp only [hl, Option.map_some, Option.some.injEq] at hd ⊢
     rw [hd, cookie_roundtrip k v hv hk h]
 
+/-! ## the attributes -/
+
+/-- **Exactly the requested attributes, canonically spelled, in fixed order.** Whenever
+`dump_cookie` succeeds, splitting its output at `; ` (what a user agent does) yields the
+`name=value` pair followed by exactly the attribute parts of `attrParts` — Domain, Expires,
+Max-Age, Secure, HttpOnly, Path, SameSite, Partitioned, each present iff requested, SameSite one
+of `Strict`/`Lax`/`None`, Partitioned forcing Secure — for EVERY value: the value contributes no
+separator. Hypotheses: the application-supplied name and the three opaque texts (IDNA-encoded
+domain, formatted expires, quoted path — see `path_safe_excludes_separators`) contain no `;`. -/
+theorem attributes_exact (key value h : List Char) (a : Attrs)
+    (hd : dumpCookie key value a = .ok h)
+    (hkey : ∀ c ∈ Py.latin1Dec (utf8Enc key), c ≠ ';')
+    (hdom : ∀ x, a.domain = some x → ∀ c ∈ x, c ≠ ';')
+    (hexp : ∀ x, a.expires = some x → ∀ c ∈ x, c ≠ ';')
+    (hpath : ∀ x, a.path = some x → ∀ c ∈ x, c ≠ ';') :
+    ∃ hv ss, dumpValue value = .ok hv ∧ canonSameSite a.samesite = .ok ss ∧
+      (ss = none ∨ ss = some "Strict".toList ∨ ss = some "Lax".toList ∨ ss = some "None".toList) ∧
+      splitSemi h = (Py.latin1Dec (utf8Enc key) ++ '=' :: hv) :: attrParts a ss := by
+  unfold dumpCookie at hd
+  cases hss : canonSameSite a.samesite with
+  | error e => simp [hss] at hd
+  | ok ss =>
+    cases hdv : dumpValue value with
+    | error e => simp [hss, hdv] at hd
+    | ok hv =>
+      simp only [hss, hdv, Except.ok.injEq] at hd
+      have hcanon : ss = none ∨ ss = some "Strict".toList ∨ ss = some "Lax".toList ∨ ss = some "None".toList := by
+        unfold canonSameSite at hss
+        cases hs : a.samesite with
+        | none => simp [hs] at hss; exact Or.inl hss.symm
+        | some s =>
+          simp only [hs] at hss
+          split at hss
+          · rename_i hcond
+            simp only [Except.ok.injEq] at hss
+            simp only [Bool.or_eq_true, beq_iff_eq] at hcond
+            rcases hcond with (h1 | h2) | h3
+            · right; left; rw [← hss, h1]
+            · right; right; left; rw [← hss, h2]
+            · right; right; right; rw [← hss, h3]
+          · simp at hss
+      refine ⟨hv, ss, rfl, rfl, hcanon, ?_⟩
+      rw [← hd]
+      apply splitSemi_intercalate _ (by simp)
+      intro p hp c hc
+      simp only [List.mem_cons] at hp
+      rcases hp with rfl | hp
+      · -- the pair
+        simp only [List.mem_append, List.mem_cons] at hc
+        rcases hc with hc | rfl | hc
+        · exact hkey c hc
+        · decide
+        · have := List.all_eq_true.mp (dump_value_inert value hv hdv) c hc
+          simp only [inertChar, Bool.and_eq_true, bne_iff_ne, ne_eq] at this
+          exact this.1.2
+      · -- an attribute part
+        simp only [attrParts, List.mem_append] at hp
+        have kvcase : ∀ (k : String) (v : Option (List Char)), (∀ c ∈ k.toList, c ≠ ';') →
+            (∀ x, v = some x → ∀ c ∈ x, c ≠ ';') → p ∈ kvPart k v → c ≠ ';' := by
+          intro k v hk hv' hpk
+          unfold kvPart at hpk
+          cases v with
+          | none => simp at hpk
+          | some x =>
+            simp only [List.mem_singleton] at hpk
+            subst hpk
+            simp only [List.mem_append, List.mem_cons] at hc
+            rcases hc with hc | rfl | hc
+            · exact hk c hc
+            · decide
+            · exact hv' x rfl c hc
+        have flcase : ∀ (k : String) (b : Bool), (∀ c ∈ k.toList, c ≠ ';') → p ∈ flagPart k b → c ≠ ';' := by
+          intro k b hk hpk
+          unfold flagPart at hpk
+          split at hpk
+          · simp only [List.mem_singleton] at hpk; subst hpk; exact hk c hc
+          · simp at hpk
+        rcases hp with ((((((hp | hp) | hp) | hp) | hp) | hp) | hp) | hp
+        · exact kvcase "Domain" _ (by decide) hdom hp
+        · exact kvcase "Expires" _ (by decide) hexp hp
+        · refine kvcase "Max-Age" _ (by decide) ?_ hp
+          intro x hx
+          cases hm : a.maxAge with
+          | none => simp [hm] at hx
+          | some i => simp only [hm, Option.map_some, Option.some.injEq] at hx; subst hx; exact intText_no_semi i
+        · exact flcase "Secure" _ (by decide) hp
+        · exact flcase "HttpOnly" _ (by decide) hp
+        · exact kvcase "Path" _ (by decide) hpath hp
+        · refine kvcase "SameSite" _ (by decide) ?_ hp
+          intro x hx
+          rcases hcanon with h0 | h1 | h2 | h3
+          · simp [h0] at hx
+          · rw [h1] at hx; obtain rfl := Option.some.inj hx; decide
+          · rw [h2] at hx; obtain rfl := Option.some.inj hx; decide
+          · rw [h3] at hx; obtain rfl := Option.some.inj hx; decide
+        · exact flcase "Partitioned" _ (by decide) hp
+
+/-- non-vacuity: a cookie with every attribute, and a value that tries to inject one -/
+example : (match dumpCookie "sid".toList "x; Secure".toList
+      { domain := some "example.com".toList, expires := some "Thu, 01 Jan 2026 00:00:00 GMT".toList,
+        maxAge := some 3600, httponly := true, samesite := some "lAx".toList, partitioned := true } with
+    | .ok h => splitSemi h == ["sid=\"x\\073 Secure\"".toList, "Domain=example.com".toList,
+        "Expires=Thu, 01 Jan 2026 00:00:00 GMT".toList, "Max-Age=3600".toList, "Secure".toList,
+        "HttpOnly".toList, "Path=/".toList, "SameSite=Lax".toList, "Partitioned".toList]
+    | .error _ => false) = true := by decide +kernel
+
 example : jarText [("a".toList, "1".toList), ("sid".toList, "\"x\\073y\"".toList)] = "a=1; sid=\"x\\073y\"".toList := by
   decide
 
